@@ -798,8 +798,6 @@ impl Esc {
                 completes_mbx_write = a <= last && last < a + n;
             }
         }
-        let old_sii_hi = self.mem[R_SII_CONTROL as usize + 1];
-        let _ = old_sii_hi;
         for (k, &v) in data.iter().enumerate() {
             if !Self::is_read_only(a + k) {
                 self.mem[a + k] = v;
